@@ -23,10 +23,10 @@ SEG = '<QQQQ'
 
 def plan(tier: str, seed: int) -> List[Dict[str, Any]]:
     out = []
-    n_prefix, files = (8, 5) if tier == 'quick' else (32, 48)
+    n_prefix, files = (8, 8) if tier == 'quick' else (32, 48)
     for i in range(n_prefix):
         out.append({'kind': 'prefix', 'seed': seed, 'shard': i, 'files': files, 'timeout_s': 1500 if tier == 'quick' else 7200})
-    n_mut, cases = (8, 700) if tier == 'quick' else (32, 12000)
+    n_mut, cases = (8, 1200) if tier == 'quick' else (32, 12000)
     for i in range(n_mut):
         out.append({'kind': 'mutate', 'seed': seed, 'shard': i, 'cases': cases, 'timeout_s': 1500 if tier == 'quick' else 7200})
     return out
@@ -63,6 +63,23 @@ def sample_file(rng: random.Random, path: Path, big: bool = False) -> Dict[str, 
         cursor = start + length
     writer.write_to_file()
     return {'w': w, 'version': version, 'segments': [(s, n) for s, n, _ in segments]}
+
+
+def large_file(rng: random.Random, path: Path) -> None:
+    """a writer-produced file whose payload is far larger than any internal chunking (incompressible words):
+    damage, truncation and trailing data then land beyond the first 64 KiB of the (compressed) payload."""
+    from flipjump.fjm.fjm_consts import FJMVersion
+    from flipjump.fjm.fjm_writer import Writer
+
+    w = rng.choice([16, 32, 64])
+    version = rng.choice([3, 3, 3, 2, 1, 0])
+    writer = Writer(path, w, FJMVersion(version), lzma_preset=rng.choice([0, 1, 6]))
+    n_words = 2 * rng.choice([9000, 15000, 24000]) * (64 // w)
+    n_words = min(n_words, ((1 << w) // w) - 64)
+    n_words -= n_words % 2
+    words = [rng.getrandbits(w) for _ in range(n_words)]
+    writer.add_segment(0, n_words + rng.choice([0, 2, 2000]), writer.add_data(words), n_words)
+    writer.write_to_file()
 
 
 def image_of(path: Path) -> Tuple[str, Any]:
@@ -328,18 +345,42 @@ def mutate(rng: random.Random, data: bytes) -> Tuple[bytes, str]:
     return bytes(out) + payload, 'structured'
 
 
+def mutate_large(rng: random.Random, data: bytes) -> Tuple[bytes, str]:
+    kind = rng.choice(['damage', 'damage', 'tail', 'truncate', 'zero-run', 'intact'])
+    b = bytearray(data)
+    body = 64  # past header + segment table
+    if kind == 'damage':
+        for _ in range(rng.choice([1, 2, 5])):
+            b[rng.randrange(body, len(b))] = rng.choice([0, 0, 1, 0xFF, rng.getrandbits(8)])
+    elif kind == 'tail':
+        b += bytes(rng.getrandbits(8) for _ in range(rng.choice([1, 8, 70000, 140000])))
+    elif kind == 'truncate':
+        del b[rng.randrange(body, len(b)):]
+    elif kind == 'zero-run':
+        pos = rng.randrange(body, len(b))
+        b[pos:pos + rng.choice([1, 16, 70000])] = bytes(min(len(b) - pos, rng.choice([1, 16, 70000])))
+    return bytes(b), f'large/{kind}'
+
+
 def shard_mutate(spec: Dict[str, Any], judge: Judge) -> List[Any]:
     rng = rng_for(spec['seed'], PROPERTY, 'mutate', spec['shard'])
     src = engines.tmpdir() / 'c10-src.fjm'
     samples = []
     base: List[bytes] = []
+    large: List[bytes] = []
     for index in range(spec['cases']):
         if index % 40 == 0:
             base = []
             for _ in range(4):
                 sample_file(rng, src, big=False)
                 base.append(src.read_bytes())
-        data, label = mutate(rng, rng.choice(base))
+        if index % 150 == 0:
+            large_file(rng, src)
+            large = [src.read_bytes()]
+        if index % 12 == 11 and large:
+            data, label = mutate_large(rng, large[0])
+        else:
+            data, label = mutate(rng, rng.choice(base))
         judge.count(f'mutation/{label}')
         judge.feed(data, label)
         judge.hashes.append(case_hash(data.hex()))
